@@ -106,8 +106,9 @@ func runOrd2(m *Model, r *RuleResult) {
 		return
 	}
 	var isl, unrev, comps []ssa.CallInstruction
-	isl = staticCalls(layout, func(c *ssa.Function) bool { return c.Name() == "IgnoreSelfLoops" })
-	unrev = staticCalls(layout, func(c *ssa.Function) bool { return c.Name() == "UnreverseEdges" })
+	preF, unF := m.anchorSelfLoopPre(), m.anchorUnreverse()
+	isl = staticCalls(layout, func(c *ssa.Function) bool { return c == preF })
+	unrev = staticCalls(layout, func(c *ssa.Function) bool { return c == unF })
 	comps = staticCalls(layout, func(c *ssa.Function) bool {
 		return c.Name() == "Components" && shortPkg(pkgPathOf(c)) == "internal/graph/connected"
 	})
@@ -118,7 +119,7 @@ func runOrd2(m *Model, r *RuleResult) {
 		}
 	})
 	if len(isl) != 1 || len(unrev) != 1 || len(comps) != 1 || len(procs) != 1 {
-		r.undecided("anchors", m.Pos(layout.Pos()), "Layout must contain exactly one call each of IgnoreSelfLoops, UnreverseEdges, connected.Components and one Process invoke",
+		r.undecided("anchors", m.Pos(layout.Pos()), "Layout must contain exactly one call each of the self-loop pre-processor (returns a func(*DGraph)), the un-reverser (modifies Edge.IsReversed), connected.Components and one Process invoke",
 			fmt.Sprintf("found %d/%d/%d/%d", len(isl), len(unrev), len(comps), len(procs)))
 		return
 	}
@@ -1173,7 +1174,7 @@ func listOpsOf(m *Model, f *ssa.Function) []listOp {
 
 func runEff2(m *Model, r *RuleResult) {
 	m.fxInit()
-	isl := m.SSAFunc("internal/processor/preprocessor", "IgnoreSelfLoops")
+	isl := m.anchorSelfLoopPre()
 	if isl == nil {
 		r.undecided("anchor:IgnoreSelfLoops", "-", "preprocessor.IgnoreSelfLoops", "not found")
 	} else {
@@ -1243,7 +1244,7 @@ func runEff2(m *Model, r *RuleResult) {
 		}
 	}
 	// UnreverseEdges: Reverse exactly under e.IsReversed
-	un := m.SSAFunc("internal/processor/postprocessor", "UnreverseEdges")
+	un := m.anchorUnreverse()
 	rev := m.SSAFunc("internal/graph", "(*Edge).Reverse")
 	if un == nil || rev == nil {
 		r.undecided("anchor:UnreverseEdges", "-", "postprocessor.UnreverseEdges", "not found")
@@ -1287,8 +1288,8 @@ func runEff2(m *Model, r *RuleResult) {
 		}
 	}
 	// breakEdge / reduceForward
-	be := m.SSAFunc("internal/phase3", "breakEdge")
-	rf := m.SSAFunc("internal/phase5", "reduceForward")
+	be := m.anchorBreakEdge()
+	rf := m.anchorChainMerge()
 	if be == nil || rf == nil {
 		r.undecided("anchor:break/merge", "-", "phase3.breakEdge / phase5.reduceForward", "not found")
 		return
